@@ -28,10 +28,10 @@ struct SIMDVector<T, simd_abi::scalar> {
     FASTOR_INLINE void aligned_load(const T *data)  { value   = *data; }
     FASTOR_INLINE void aligned_store(T *data) const { data[0] = value; }
 
-    FASTOR_INLINE void mask_load(const scalar_value_type *a, uint8_t mask, bool ) {
+    FASTOR_INLINE void mask_load(const scalar_value_type *a, uint8_t mask, bool = false) {
         if (mask != 0x0) value = *a;
     }
-    FASTOR_INLINE void mask_store(scalar_value_type *a, uint8_t mask, bool) const {
+    FASTOR_INLINE void mask_store(scalar_value_type *a, uint8_t mask, bool = false) const {
         if (mask != 0x0) a[0] = value;
     }
 
